@@ -349,6 +349,12 @@ func runConc(seed int64, be string, maxG, opsPer int) ([][]byte, map[string]int)
 			}
 		}
 	}
+	// the handle is closed while the others use it: Close takes effect at one instant, calls before it
+	// behave as ever, calls after it fail - and every call returns
+	if concFamily == "close" {
+		k := g.r.Intn(len(progs[G-1]))
+		progs[G-1] = append(append(append([]E{}, progs[G-1][:k]...), E{"op": "Close"}), progs[G-1][k:]...)
+	}
 	var wg sync.WaitGroup
 	start := make(chan struct{})
 	for gi := 0; gi < G; gi++ {
@@ -364,6 +370,9 @@ func runConc(seed int64, be string, maxG, opsPer int) ([][]byte, map[string]int)
 	close(start)
 	wg.Wait()
 	in.hook = nil
+	if concFamily == "close" {
+		return concLines(evs, nil, seed, be, G)
+	}
 	audit := x.Audit(b)
 
 	return concLines(evs, audit, seed, be, G)
@@ -401,7 +410,9 @@ func concLines(evs []concEvent, audit E, seed int64, be string, G int) ([][]byte
 			stats[fmt.Sprintf("%v/%v/%v", it.ev.e["op"], it.ev.res["st"], it.ev.res["err"])]++
 		}
 	}
-	lines = append(lines, marshalLine(E{"t": "audit", "op": "FinalAudit", "audit": audit}))
+	if audit != nil {
+		lines = append(lines, marshalLine(E{"t": "audit", "op": "FinalAudit", "audit": audit}))
+	}
 	stats[fmt.Sprintf("goroutines=%d", G)]++
 	return lines, stats
 }
